@@ -37,10 +37,10 @@ const (
 
 type nopCache struct{}
 
-func (nopCache) Has(string) bool                        { return false }
-func (nopCache) Get(string) (io.ReadCloser, error)      { return nil, fmt.Errorf("empty") }
-func (nopCache) Store(string, io.ReadCloser) error      { return nil }
-func (nopCache) Delete(string) error                    { return nil }
+func (nopCache) Has(string) bool                   { return false }
+func (nopCache) Get(string) (io.ReadCloser, error) { return nil, fmt.Errorf("empty") }
+func (nopCache) Store(string, io.ReadCloser) error { return nil }
+func (nopCache) Delete(string) error               { return nil }
 
 type lfWorld struct {
 	s    *simapi.Server
